@@ -169,3 +169,63 @@ def replay(ctx, path):
         return judge(ctx, traces, verdicts)
     finally:
         _tmp_env_done(jtmp, old)
+
+
+# ---------------------------------------------------------------------------
+# ./check C16 --selftest : trace corruption (DESIGN 4.4) -- TLC must name the clause
+def selftest(ctx):
+    import copy
+    r1 = nd.raw_manifest('a1', nd.EP_SHAPES[5], 1, 1, nd.HOST_SHAPES[1], vring=True)
+    r2 = nd.raw_manifest('a1', nd.EP_SHAPES[3], 0, 1, nd.HOST_SHAPES[2])
+    h = [('Start', 'c1', r1), ('Start', 'c2', r2), ('Finish', 'c1'), ('Finish', 'c1'),
+         ('Finish', 'c2'), ('Finish', 'c2')]
+    jtmp, old = _tmp_env()
+    try:
+        good = nd.replay(h, seed=ctx.seed)
+        c1_rule = [p for p in good[1]['post']['rules'] if p[0][0] == 'dnat' and p[0][2] == 'udp'][0]
+        c1_infra = [m for m in good[1]['post']['infra'] if m[1] == 'udp'][0]
+
+        def c_rule_left(line):      # one of c1's rule files survived its finish
+            line['post']['rules'] = line['post']['rules'] + [c1_rule]
+
+        def c_set_left(line):       # one of c1's ip-set members survived
+            line['post']['infra'] = line['post']['infra'] + [c1_infra]
+
+        def c_other_rule(line):     # finishing c1 took a rule of c2 (all that is left is c2's)
+            line['post']['rules'] = line['post']['rules'][1:]
+
+        def c_other_set(line):      # finishing c1 took c2's vring member
+            line['post']['vring'] = []
+
+        def c_repeat_changes(line):  # the second finish removed c2's endpoint specs
+            line['post']['specs'] = []
+
+        def c_repeat_raises(line):
+            line['res'] = 'raise'
+        cases = [('rule-left', 3, c_rule_left, 'C16.clean'), ('set-left', 3, c_set_left, 'C16.clean'),
+                 ('takes-foreign-rule', 3, c_other_rule, 'C16.others'),
+                 ('takes-foreign-member', 3, c_other_set, 'C16.others'),
+                 ('repeat-changes', 4, c_repeat_changes, 'C16.idempotent'),
+                 ('repeat-raises', 4, c_repeat_raises, 'C16.idempotent')]
+        traces = [dict(tid='good', lines=good)]
+        for name, idx, fn, _ in cases:
+            lines = copy.deepcopy(good)
+            fn(lines[idx])
+            traces.append(dict(tid=name, lines=lines))
+        verdicts, _ = nd.validate(traces)
+        by = {(v['tid'], v['i']): v for v in verdicts}
+        bad = [v for v in verdicts if v['tid'] == 'good' and v['fail']]
+        ok = not bad
+        if bad:
+            ctx.log('SELFTEST: the uncorrupted trace is not clean: %r' % bad)
+        for name, idx, _, clause in cases:
+            got = by[(name, idx)]['fail']
+            hit = clause in got
+            ok = ok and hit
+            ctx.log('SELFTEST corruption %-20s line %d (%s %s): TLC names %s -> %s' % (
+                name, idx, good[idx]['ev'], good[idx]['c'], got, 'ok' if hit else 'MISSING ' + clause))
+        if not ok:
+            raise tlc.MachineryError('selftest: a corrupted trace was not rejected with the expected clause')
+        return 0
+    finally:
+        _tmp_env_done(jtmp, old)
